@@ -100,6 +100,55 @@ theorem C12_phase_tables : (phaseMutable.isEmpty || phasesRecreatedByReset) = tr
 /-- TableOK (shared entity trie): the lookups the tokenizer performs write nothing on the process-wide trie object. -/
 theorem C12_trie_readonly : trieLookupWrites = [] := by decide +kernel
 
+/-- TableOK (objects shared by every parser of the process): the classes instantiated at module level or in a class body
+are the dispatch tables, the entity trie and the etree `Comment` factory; outside construction their methods write to
+`self` only in `Trie.keys` (a prefix cache), which the parser never calls on the shared trie (`C12_trie_readonly` covers
+the lookups it does call). A new write on a shared object breaks this obligation. -/
+theorem C12_shared_readonly :
+    sharedClasses = [[67, 111, 109, 109, 101, 110, 116], [77, 101, 116, 104, 111, 100, 68, 105, 115, 112, 97, 116, 99, 104, 101, 114],
+                     [84, 114, 105, 101]] ∧
+    sharedClassWrites = [[84, 114, 105, 101, 46, 107, 101, 121, 115, 46, 95, 99, 97, 99, 104, 101, 112, 111, 105, 110, 116, 115],
+                         [84, 114, 105, 101, 46, 107, 101, 121, 115, 46, 95, 99, 97, 99, 104, 101, 115, 116, 114]] := by
+  decide +kernel
+
+/-! ### threads: independent parser objects only meet through read-only shared objects -/
+
+/-- one atomic step of a thread: new private state from the private state and the (read-only) shared state -/
+abbrev Step := State → State → State
+
+/-- run a schedule (`true`: thread A makes its next step, `false`: thread B) over the two programs -/
+def runSched (sh : State) : List Bool → List Step → List Step → State × State → State × State
+  | [], _, _, s => s
+  | true :: r, st :: pa, pb, (a, b) => runSched sh r pa pb (st a sh, b)
+  | true :: r, [], pb, s => runSched sh r [] pb s
+  | false :: r, pa, st :: pb, (a, b) => runSched sh r pa pb (a, st b sh)
+  | false :: r, pa, [], s => runSched sh r pa [] s
+
+/-- **C12 (threads).** under any schedule, what thread A has computed is what its own steps compute alone: the first
+`n` steps of its program, `n` the number of times it was scheduled — independent of B's program, B's state and the
+interleaving.  The side condition that steps write private state only is `C12_shared_readonly` + `C12_trie_readonly`
+(+ `C12_memo` for the memo tables). -/
+theorem C12_interleave (sh : State) (sched : List Bool) (pa pb : List Step) (a b : State) :
+    (runSched sh sched pa pb (a, b)).1 = (pa.take (sched.count true)).foldl (fun x st => st x sh) a := by
+  induction sched generalizing pa pb a b with
+  | nil => simp [runSched]
+  | cons x r ih =>
+    cases x with
+    | true =>
+      cases pa with
+      | nil => simp [runSched, ih]
+      | cons st pa => simp [runSched, ih, List.count_cons]
+    | false =>
+      cases pb with
+      | nil => simp [runSched, ih, List.count_cons]
+      | cons st pb => simp [runSched, ih, List.count_cons]
+
+/-- a complete run of A (scheduled at least as often as it has steps) equals A alone -/
+theorem C12_interleave_complete (sh : State) (sched : List Bool) (pa pb : List Step) (a b : State)
+    (h : pa.length ≤ sched.count true) :
+    (runSched sh sched pa pb (a, b)).1 = pa.foldl (fun x st => st x sh) a := by
+  rw [C12_interleave, List.take_of_length_le h]
+
 /-- the instantiated statement for HTMLParser -/
 theorem C12_parser (h : List Call) (hb : ∀ c ∈ h, MutatesOnly parserMutable c.body)
     (c : Call) (hi : IgnoresInitial parserWriteBeforeRead c.body) (s0 : State) :
